@@ -86,3 +86,45 @@ def all_derivs(kv_float, p, u_float, numderiv):
             full[first + r] = v
         out.append(full)
     return out
+
+
+# ------------------------------------------------------------------------------------------------
+# exact Galerkin integrals of B-splines
+
+def pmul(a, b):
+    out = [Fraction(0)] * (len(a) + len(b) - 1)
+    for i, x in enumerate(a):
+        for j, y in enumerate(b):
+            out[i + j] += x * y
+    return out
+
+
+def pint(a, lo, hi):
+    """exact integral of the polynomial a over [lo, hi]"""
+    r = Fraction(0)
+    for k, v in enumerate(a):
+        r += v * (hi ** (k + 1) - lo ** (k + 1)) / (k + 1)
+    return r
+
+
+def biform_1d(kv1_float, p1, kv2_float, p2, du, dv, weight=None):
+    """exact matrix  A[i][j] = int w * N2_i^(dv) * N1_j^(du)   (rows: kv2 test functions, columns: kv1 trial functions);
+    both knot vectors must have the same break points; weight: polynomial coefficient list or None"""
+    kv1 = [fr(x) for x in kv1_float]
+    kv2 = [fr(x) for x in kv2_float]
+    n1, n2 = len(kv1) - p1 - 1, len(kv2) - p2 - 1
+    A = [[Fraction(0)] * n1 for _ in range(n2)]
+    mesh = sorted(set(kv1))
+    for lo, hi in zip(mesh[:-1], mesh[1:]):
+        s1 = max(k for k in range(len(kv1) - 1) if kv1[k] <= lo and kv1[k] < kv1[k + 1] and kv1[k + 1] >= hi)
+        s2 = max(k for k in range(len(kv2) - 1) if kv2[k] <= lo and kv2[k] < kv2[k + 1] and kv2[k + 1] >= hi)
+        N1 = basis_poly(kv1, p1, s1)
+        N2 = basis_poly(kv2, p2, s2)
+        for i, a in N2.items():
+            da = pderiv(a, dv)
+            for j, b in N1.items():
+                prod = pmul(da, pderiv(b, du))
+                if weight is not None:
+                    prod = pmul(prod, weight)
+                A[i][j] += pint(prod, lo, hi)
+    return A
